@@ -278,7 +278,7 @@ fn run_damage(plan: &Value, rec: &mut Rec) {
     // the undamaged message must read cleanly (else nothing can be learned)
     let read = |s: Arc<Vec<u8>>| {
         let (input, _l) = seams::sim_bufread(s, Sched::Full, 8192, vec![]);
-        let spec = ReadSpec { armor: false, opener: opener.clone(), consumer: &consumer, verifiers: vec![], max, streaming_v1: streaming, v1_limit, opts: 4 };
+        let spec = ReadSpec { armor: false, opener: opener.clone(), consumer: &consumer, verifiers: vec![], max, streaming_v1: streaming, v1_limit, opts: 4 | 16 };
         guard(|| workload::read_message(input, &spec))
     };
     match read(Arc::new(stream.clone())) {
